@@ -857,11 +857,7 @@ impl<'a> Gen<'a> {
                 guard += 1;
             }
         }
-        // R6: a bare X / Y on the right of an indexed left operand is compared with itself
-        // (known finding cmp_indexed_vs_register)
-        if Self::is_xy(&b) && !Self::is_plain(&a) && !self.cfg.wild {
-            b = self.const8();
-        }
+        // (R6, a bare register right of an indexed operand, was lifted after fix 914b4a3)
         // R3: unsigned relational comparison against literal 0 takes the signed shortcut
         // (known finding unsigned_relational_zero)
         if rel && !self.cfg.wild {
@@ -1500,7 +1496,13 @@ impl<'a> Gen<'a> {
                 self.st_top = false;
                 break self.expr(W::W8, 1);
             }
-            let c = self.leaf8();
+            // (R9, selectors limited to addressable values, was lifted after fix 50c7af4)
+            let c = if self.rng.chance(1, 3) {
+                self.st_top = false;
+                self.expr(W::W8, 1)
+            } else {
+                self.leaf8()
+            };
             if self.has_signed(&c) {
                 continue;
             }
